@@ -887,6 +887,7 @@ def main():
         'ls_module.queue_script on a freshly loaded module: every schedule with at most 2 '
         'pre-emptions of two clients (lines of ls_module.py are switch points too) and random '
         'schedules of up to 3 clients x 2 scripts'.format(len(FIXED_SCENARIOS)))
+    chk.coverage['rule'] += ' Added late, as TESTS over fixed lists (not proofs): run.main() under the deterministic scheduler (every queued script has begun when main returns), and twelve lsrun invocations in a child process (files in order, exactly once).'
     chk.assumptions += [
         'thread switches are explored at source-line granularity (sys.settrace line events); '
         'switches inside a line (e.g. between the two reads of _active_agent in is_running) are not',
